@@ -393,4 +393,560 @@ theorem subsect_roundtrip (t : TSub) (hwf : t.wf) (hne : t.ents ≠ []) (s : Byt
       = c + (t.lead.length + t.wStart + 1 + t.wCount + t.hdrEol.length + 20 * t.ents.length) := by omega
   rw [this]
 
+
+theorem getElem?_add_drop (s : Bytes) (c k : Nat) : s[c + k]? = (s.drop c)[k]? := by
+  simp
+
+/-- the look-ahead of the fixed `XrefSectP` loop at the end of a section: after optional blanks
+    no number starts, so the loop stops (cursor after the blanks, or on the CR of a CR LF) -/
+theorem lookahead_end (s : Bytes) (c : Nat) (hc : c ≤ s.length) (h : endsSection (s.drop c) = true) :
+    ∃ c1, wsNoEol true s c = (.ok (), c1) ∧ startsHeader s[c1]? = false ∧ c ≤ c1 ∧ c1 ≤ s.length := by
+  have hfun : (fun (c : UInt8) => c == 32 || c == 0 || c == 9 || c == 13 || c == 12) = Xref.isWsNoEol := by
+    funext b; rfl
+  unfold endsSection at h
+  rw [hfun] at h
+  have hsplit := List.takeWhile_append_dropWhile (p := Xref.isWsNoEol) (l := s.drop c)
+  have hlen : ((s.drop c).takeWhile Xref.isWsNoEol).length ≤ s.length - c := by
+    have := congrArg List.length hsplit
+    simp only [List.length_append, List.length_drop] at this
+    omega
+  have hj : s[c + ((s.drop c).takeWhile Xref.isWsNoEol).length]? = ((s.drop c).dropWhile Xref.isWsNoEol).head? := by
+    exact head_of_drop (drop_step hsplit.symm)
+  unfold wsNoEol parseAllowed
+  simp only [Bool.not_true, Bool.and_false, Bool.false_eq_true, if_false]
+  generalize hws : (s.drop c).takeWhile Xref.isWsNoEol = ws at *
+  by_cases hrew : (ws.getLast? == some 13 && s[c + ws.length]? == some 10) = true
+  · simp only [hrew, if_true]
+    simp only [Bool.and_eq_true, beq_iff_eq] at hrew
+    have hne : ws ≠ [] := by intro h0; rw [h0] at hrew; simp at hrew
+    have hpos : 0 < ws.length := List.length_pos_iff.mpr hne
+    have hj0 : ¬ (c + ws.length == 0) = true := by
+      have : c + ws.length ≠ 0 := by omega
+      simpa using this
+    simp only [hj0, if_false]
+    refine ⟨_, rfl, ?_, by omega, by omega⟩
+    have : s[c + ws.length - 1]? = some 13 := by
+      have e : c + ws.length - 1 = c + (ws.length - 1) := by omega
+      rw [e, getElem?_add_drop, ← hsplit, List.getElem?_append_left (by omega)]
+      rw [← List.getLast?_eq_getElem?]; exact hrew.1
+    rw [this]; decide
+  · simp only [hrew, if_false]
+    refine ⟨_, rfl, ?_, by omega, by omega⟩
+    rw [hj]
+    cases hh : ((s.drop c).dropWhile Xref.isWsNoEol).head? with
+    | none => rfl
+    | some b =>
+      rw [hh] at h
+      simp only [Bool.not_eq_true'] at h
+      simp only [startsHeader]
+      rw [isDigit_eq_isDig]
+      simpa using h
+
+def subOk (t : TSub) : Prop := t.wf ∧ t.ents ≠ []
+
+theorem encSub_pos (t : TSub) : 1 ≤ (encSub t).length := by rw [encSub_length]; omega
+
+theorem encSubs_length_ge (subs : List TSub) : subs.length ≤ (subs.flatMap encSub).length := by
+  induction subs with
+  | nil => simp
+  | cons t ts ih =>
+    simp only [List.flatMap_cons, List.length_append, List.length_cons]
+    have := encSub_pos t; omega
+
+/-- the section loop over written subsections (each with at least one entry) followed by
+    something that ends the section -/
+theorem sect_roundtrip : ∀ (subs : List TSub) (fuel : Nat) (s : Bytes) (c : Nat) (rest : Bytes) (first : Bool),
+    subs.length + 1 ≤ fuel → (first = true → subs ≠ []) → (∀ t ∈ subs, subOk t) →
+    s.drop c = subs.flatMap encSub ++ rest → c ≤ s.length → endsSection rest = true →
+    ∃ l c', sectLoop fuel s c first = (.ok l, c') ∧ sectEnts l = tableEnts subs
+      ∧ l.map (fun ss => (ss.val.start, ss.val.count)) = subs.map (fun t => (t.start, t.ents.length))
+      ∧ c + (subs.flatMap encSub).length ≤ c' ∧ c' ≤ s.length := by
+  intro subs
+  induction subs with
+  | nil =>
+    intro fuel s c rest first hf hfirst _ hs hc hend
+    cases first with
+    | true => exact absurd rfl (hfirst rfl)
+    | false =>
+      obtain ⟨f, rfl⟩ : ∃ f, fuel = f + 1 := ⟨fuel - 1, by simp at hf; omega⟩
+      simp only [List.flatMap_nil, List.nil_append] at hs
+      obtain ⟨c1, hw, hnh, h1, h2⟩ := lookahead_end s c hc (by rw [hs]; exact hend)
+      refine ⟨[], c1, ?_, rfl, rfl, by simpa using h1, h2⟩
+      simp [sectLoop, hw, hnh]
+  | cons t ts ih =>
+    intro fuel s c rest first hf hfirst hok hs hc hend
+    obtain ⟨f, rfl⟩ : ∃ f, fuel = f + 1 := ⟨fuel - 1, by simp at hf; omega⟩
+    simp only [List.flatMap_cons, List.append_assoc] at hs
+    obtain ⟨hwf, hne⟩ := hok t (by simp)
+    -- whether another subsection follows: yes
+    have hmore : (if first = true then ((.ok true, c) : Step Bool)
+        else andThen (wsNoEol true s c) fun _ c1 =>
+          if startsHeader s[c1]? = true then (.ok true, c) else (.ok false, c1)) = (.ok true, c) := by
+      cases first with
+      | true => rfl
+      | false =>
+        obtain ⟨_, _, hws, _, _, _, hlead, _, _, _⟩ := hwf
+        obtain ⟨d0, t0, hd0, hdig0⟩ := padDec_head t.wStart t.start hws
+        have hs0 : s.drop c = t.lead ++ (padDec t.wStart t.start ++ ([32] ++ padDec t.wCount t.ents.length
+            ++ t.hdrEol ++ t.ents.flatMap encEntry ++ (ts.flatMap encSub ++ rest))) := by
+          rw [hs]; simp [encSub]
+        have h0 := wsNoEol_blanks s c t.lead _ hs0 hlead (by
+          intro b hb; rw [hd0] at hb; simp at hb; subst hb; exact (digit_not_ws _ hdig0).1)
+        have hpk : s[c + t.lead.length]? = some d0 := by
+          have := head_of_drop (drop_step hs0); rw [hd0] at this; simpa using this
+        simp [h0, hpk, startsHeader, hdig0]
+    obtain ⟨l1, hsub, hm1⟩ := subsect_roundtrip t hwf hne s c _ hs
+    have hs' := drop_step hs
+    have hlen : (s.drop c).length = (encSub t).length + (ts.flatMap encSub ++ rest).length := by
+      rw [hs]; simp
+    simp only [List.length_drop] at hlen
+    obtain ⟨l, c', hl, he, hsc, hc1, hc2⟩ := ih f s (c + (encSub t).length) rest false
+      (by simp at hf ⊢; omega) (by intro h; cases h) (fun x hx => hok x (by simp [hx])) hs' (by omega) hend
+    refine ⟨(⟨⟨t.start, t.ents.length, l1⟩, c, c + (encSub t).length⟩ : Located SubSect) :: l, c', ?_, ?_, ?_, ?_, hc2⟩
+    · simp only [sectLoop, hmore, hsub, hl]
+    · simp only [sectEnts, List.flatMap_cons, tableEnts] at he ⊢
+      rw [he, hm1]
+    · simp [hsc]
+    · simp only [List.flatMap_cons, List.length_append]; omega
+
+theorem wsEol_none (s : Bytes) (c : Nat) (r : Bytes) (hs : s.drop c = r)
+    (hr : ∀ b, r.head? = some b → Xref.isWsEol b = false ∧ b ≠ 37) :
+    wsEol true s c = (.ok (), c) := by
+  have hpa := parseAllowed_prefix Xref.isWsEol s c [] r (by simpa using hs) rfl (fun b hb => (hr b hb).1)
+  have hnext : s[c]? = r.head? := head_of_drop hs
+  have h37 : (s[c]? == some 37) = false := by
+    rw [hnext]
+    cases hh : r.head? with
+    | none => rfl
+    | some b => have := (hr b hh).2; simp [this]
+  unfold wsEol
+  have : s.length - c + 1 = (s.length - c) + 1 := rfl
+  rw [this]
+  simp [wsEolLoop, hpa, h37]
+
+theorem isBlank_wsEol (b : UInt8) (h : XrefSpec.isBlank b = true) : Xref.isWsEol b = true := by
+  simp only [XrefSpec.isBlank, Bool.or_eq_true, beq_iff_eq] at h
+  simp only [Xref.isWsEol, Bool.or_eq_true, beq_iff_eq]
+  rcases h with ((h | h) | h) | h <;> simp [h]
+
+/-- the subsection without its leading blanks -/
+def unlead (t : TSub) : TSub := { t with lead := [] }
+
+theorem encSub_unlead (t : TSub) : encSub t = t.lead ++ encSub (unlead t) := by
+  simp [encSub, unlead]
+
+theorem unlead_ok (t : TSub) (h : subOk t) : subOk (unlead t) := by
+  obtain ⟨⟨a, b, c, d, e, f, _, g⟩, hne⟩ := h
+  exact ⟨⟨a, b, c, d, e, f, rfl, g⟩, hne⟩
+
+/-- `XrefSectP` on `xref` LF blanks and then a digit: everything up to the section loop succeeds,
+    the loop starts right at that digit -/
+theorem xrefSectP_start (lead body : Bytes) (hlead : lead.all XrefSpec.isBlank = true)
+    (hbody : ∃ d tl, body = d :: tl ∧ Xref.isDigit d = true) :
+    xrefSectP (kwXref ++ ([10] ++ lead ++ body)) 0 =
+      andThen (sectLoop ((kwXref ++ ([10] ++ lead ++ body)).length - (4 + (1 + lead.length)) + 2)
+        (kwXref ++ ([10] ++ lead ++ body)) (4 + (1 + lead.length)) true) (fun l c3 => (.ok ⟨l, 0, c3⟩, c3))
+    ∧ (kwXref ++ ([10] ++ lead ++ body)).drop (4 + (1 + lead.length)) = body := by
+  obtain ⟨dd, tl, hdd, hddig⟩ := hbody
+  generalize hSdef : kwXref ++ ([10] ++ lead ++ body) = S
+  have hS := hSdef.symm
+  have h1 : wsEol true S 0 = (.ok (), 0) := by
+    apply wsEol_none S 0 S rfl
+    intro b hb; rw [hS] at hb; simp [kwXref] at hb; subst hb; decide
+  have h2 : exact [120, 114, 101, 102] S 0 = (.ok (), 4) := by
+    unfold exact
+    have : List.isPrefixOf [120, 114, 101, 102] (S.drop 0) = true := by
+      rw [List.isPrefixOf_iff_prefix, hS]; exact List.prefix_append _ _
+    rw [if_pos this]; rfl
+  have hd4 : S.drop 4 = ([10] ++ lead) ++ body := by
+    rw [hS]; simp [kwXref]
+  have h3 : wsEol false S 4 = (.ok (), 4 + (1 + lead.length)) := by
+    have := wsEol_ws S 4 ([10] ++ lead) _ hd4 (by
+        simp only [List.all_append, Bool.and_eq_true]
+        exact ⟨by decide, all_imp lead isBlank_wsEol hlead⟩) (by simp) (by
+        intro b hb; rw [hdd] at hb; simp at hb; subst hb
+        exact ⟨(digit_not_ws _ hddig).2.1, (digit_not_ws _ hddig).2.2.1⟩)
+    rw [this]; simp; omega
+  have hd5 := drop_step hd4
+  simp only [List.length_append, List.length_cons, List.length_nil, Nat.zero_add] at hd5
+  refine ⟨?_, hd5⟩
+  unfold xrefSectP
+  simp only [h1, andThen_ok, h2, h3]
+
+theorem encSub_head (t : TSub) (hws : 0 < t.wStart) (r : Bytes) :
+    ∃ d tl, encSub (unlead t) ++ r = d :: tl ∧ Xref.isDigit d = true := by
+  obtain ⟨d0, t0, hd0, hdig0⟩ := padDec_head t.wStart t.start hws
+  refine ⟨d0, t0 ++ ([32] ++ padDec t.wCount t.ents.length ++ t.hdrEol ++ t.ents.flatMap encEntry) ++ r, ?_, hdig0⟩
+  simp [encSub, unlead, hd0]
+
+/-- `XrefSectP` on a written table whose first subsection is well formed -/
+theorem xrefSectP_prefix (t : TSub) (ts : List TSub) (rest : Bytes) (htok : subOk t) :
+    xrefSectP (encTable (t :: ts) ++ rest) 0 =
+      andThen (sectLoop ((encTable (t :: ts) ++ rest).length - (4 + (1 + t.lead.length)) + 2)
+        (encTable (t :: ts) ++ rest) (4 + (1 + t.lead.length)) true) (fun l c3 => (.ok ⟨l, 0, c3⟩, c3))
+    ∧ (encTable (t :: ts) ++ rest).drop (4 + (1 + t.lead.length)) = (unlead t :: ts).flatMap encSub ++ rest
+    ∧ (encTable (t :: ts)).length = 4 + (1 + t.lead.length) + ((unlead t :: ts).flatMap encSub).length := by
+  obtain ⟨⟨_, _, hws, _, _, _, hlead, _, _, _⟩, _⟩ := htok
+  have hS : encTable (t :: ts) ++ rest
+      = kwXref ++ (([10] ++ t.lead) ++ ((unlead t :: ts).flatMap encSub ++ rest)) := by
+    simp [encTable, List.flatMap_cons, encSub_unlead t]
+  have hlenT : (encTable (t :: ts)).length = 4 + (1 + t.lead.length) + ((unlead t :: ts).flatMap encSub).length := by
+    simp [encTable, List.flatMap_cons, encSub_unlead t, kwXref]; omega
+  obtain ⟨a, b⟩ := xrefSectP_start t.lead ((unlead t :: ts).flatMap encSub ++ rest) hlead (by
+    obtain ⟨d, tl, h, hd⟩ := encSub_head t hws (ts.flatMap encSub ++ rest)
+    exact ⟨d, tl, by simpa [List.flatMap_cons] using h, hd⟩)
+  rw [hS]
+  exact ⟨a, b, hlenT⟩
+
+/-- C13 `table_roundtrip`: for every non-empty list of subsections (any partition; each subsection
+    with at least one entry, any start below 2^63, header numbers written with any number of leading
+    zeros, any blanks before and any white space after the header) of well-formed entries (offset
+    below 10^10, generation at most 65535, either type, any of the three terminators), followed by
+    anything that does not start a number after optional blanks, `XrefSectP` at cursor 0 accepts,
+    yields exactly those entries numbered consecutively from each subsection's start and the
+    subsections' (start, count), and leaves the cursor at or after the end of the table. -/
+theorem table_roundtrip (subs : List TSub) (rest : Bytes) (hne : subs ≠ [])
+    (hok : ∀ t ∈ subs, subOk t) (hend : endsSection rest = true) :
+    ∃ l c, xrefSectP (encTable subs ++ rest) 0 = (.ok ⟨l, 0, c⟩, c)
+      ∧ sectEnts l = tableEnts subs
+      ∧ l.map (fun ss => (ss.val.start, ss.val.count)) = subs.map (fun t => (t.start, t.ents.length))
+      ∧ (encTable subs).length ≤ c ∧ c ≤ (encTable subs ++ rest).length := by
+  obtain ⟨t, ts, rfl⟩ : ∃ t ts, subs = t :: ts := by
+    cases subs with
+    | nil => exact absurd rfl hne
+    | cons t ts => exact ⟨t, ts, rfl⟩
+  have htok := hok t (by simp)
+  have hu := unlead_ok t htok
+  obtain ⟨hP, hd5, hlenT⟩ := xrefSectP_prefix t ts rest htok
+  generalize hSdef : encTable (t :: ts) ++ rest = S at *
+  have hlenS : S.length - (4 + (1 + t.lead.length)) = ((unlead t :: ts).flatMap encSub ++ rest).length := by
+    rw [← hd5]; simp
+  simp only [List.length_append] at hlenS
+  have hge := encSubs_length_ge (unlead t :: ts)
+  simp only [List.length_cons] at hge
+  obtain ⟨l, c', hl, he, hsc, hc1, hc2⟩ := sect_roundtrip (unlead t :: ts)
+    (S.length - (4 + (1 + t.lead.length)) + 2) S (4 + (1 + t.lead.length)) rest true
+    (by simp only [List.length_cons]; omega) (by intro _; simp)
+    (by
+      intro x hx
+      simp only [List.mem_cons] at hx
+      rcases hx with rfl | hx
+      · exact hu
+      · exact hok x (by simp [hx]))
+    hd5 (by omega) hend
+  refine ⟨l, c', ?_, ?_, ?_, by omega, hc2⟩
+  · rw [hP, hl]; rfl
+  · rw [he]; simp [tableEnts, List.flatMap_cons, unlead]
+  · rw [hsc]; simp [unlead]
+
+
+/-- good entries followed by something that is not an entry, with a count that reaches it -/
+theorem ents_prefix_then_bad : ∀ (es : List TEnt) (n obj : Nat) (s : Bytes) (c : Nat) (bad : Bytes),
+    s.drop c = es.flatMap encEntry ++ bad → (∀ e ∈ es, e.wf) → es.length < n → obj + n ≤ usizeLim →
+    entryAt s (c + 20 * es.length) = none → ∃ k c', entsLoop n obj s c = (.err k, c') := by
+  intro es
+  induction es with
+  | nil =>
+    intro n obj s c bad _ _ hn hlim hbad
+    obtain ⟨m, rfl⟩ : ∃ m, n = m + 1 := ⟨n - 1, by simp at hn; omega⟩
+    obtain ⟨k, c', hk⟩ := entry_malformed_rejected obj s c (by simpa using hbad)
+    have hlt : ¬ obj ≥ usizeLim := by omega
+    exact ⟨k, c', by simp only [entsLoop, hlt, if_false, hk]⟩
+  | cons e t ih =>
+    intro n obj s c bad hs hwf hn hlim hbad
+    obtain ⟨m, rfl⟩ : ∃ m, n = m + 1 := ⟨n - 1, by simp at hn; omega⟩
+    simp only [List.flatMap_cons, List.append_assoc] at hs
+    have hat := entryAt_enc e (hwf e (by simp)) s c _ hs
+    have hent := entry_spec obj s c
+    rw [hat] at hent
+    simp only at hent
+    have hs' := drop_step hs
+    rw [encEntry_length] at hs'
+    simp only [List.length_cons] at hn hbad
+    obtain ⟨k, c', hk⟩ := ih m (obj + 1) s (c + 20) bad hs' (fun x hx => hwf x (by simp [hx])) (by omega)
+      (by omega) (by rw [← hbad]; congr 1; omega)
+    have hlt : ¬ obj ≥ usizeLim := by omega
+    exact ⟨k, c', by simp only [entsLoop, hlt, if_false, hent, hk]⟩
+
+/-- a subsection header as written, announcing `cnt` entries -/
+def encHdr (t : TSub) (cnt : Nat) : Bytes :=
+  t.lead ++ padDec t.wStart t.start ++ [32] ++ padDec t.wCount cnt ++ t.hdrEol
+
+def hdrOk (t : TSub) (cnt : Nat) : Prop :=
+  t.start < 10 ^ t.wStart ∧ t.start < 2 ^ 63 ∧ 0 < t.wStart ∧ cnt < 10 ^ t.wCount ∧ cnt < 2 ^ 63 ∧ 0 < t.wCount
+  ∧ t.lead.all XrefSpec.isBlank = true ∧ t.hdrEol ≠ [] ∧ t.hdrEol.all XrefSpec.isWs = true
+
+/-- `XrefSubSectP` over a written header: what remains is the entry loop -/
+theorem subsect_header (t : TSub) (cnt : Nat) (hok : hdrOk t cnt) (s : Bytes) (c : Nat) (r : Bytes)
+    (hs : s.drop c = encHdr t cnt ++ r)
+    (hr : ∀ b, r.head? = some b → Xref.isWsEol b = false ∧ b ≠ 37) :
+    xrefSubSectP s c = andThen (entsLoop cnt t.start s (c + (encHdr t cnt).length))
+        (fun es c5 => (.ok ⟨⟨t.start, cnt, es⟩, c, c5⟩, c5))
+    ∧ s.drop (c + (encHdr t cnt).length) = r := by
+  obtain ⟨hs1, hs2, hws, hc1, hc2, hwc, hlead, hene, heall⟩ := hok
+  have hlenH : (encHdr t cnt).length = t.lead.length + t.wStart + 1 + t.wCount + t.hdrEol.length := by
+    simp only [encHdr, List.length_append, padDec_length, List.length_cons, List.length_nil]
+  simp only [encHdr, List.append_assoc] at hs
+  obtain ⟨d0, t0, hd0, hdig0⟩ := padDec_head t.wStart t.start hws
+  have h0 := wsNoEol_blanks s c t.lead _ hs hlead (by
+    intro b hb; rw [hd0] at hb; simp at hb; subst hb; exact (digit_not_ws _ hdig0).1)
+  have hsA := drop_step hs
+  have hi64 : i64Max = 2 ^ 63 - 1 := rfl
+  have h1 := integerP_padDec t.wStart t.start s _ _ hsA hws hs1 (by omega) (by
+    intro b hb; simp at hb; subst hb; decide)
+  have hsB := drop_step hsA
+  rw [padDec_length] at hsB
+  have hsp : s[c + t.lead.length + t.wStart]? = some 32 := by
+    have := head_of_drop hsB; simpa using this
+  have hsC := drop_step (x := [32]) hsB
+  simp only [List.length_cons, List.length_nil] at hsC
+  obtain ⟨w0, wt, hw0, hwsp⟩ : ∃ w0 wt, t.hdrEol = w0 :: wt ∧ Xref.isWsEol w0 = true := by
+    cases hh : t.hdrEol with
+    | nil => exact absurd hh hene
+    | cons a b =>
+      rw [hh] at heall
+      simp only [List.all_cons, Bool.and_eq_true] at heall
+      exact ⟨a, b, rfl, by rw [← isWs_eq]; exact heall.1⟩
+  have h2 := integerP_padDec t.wCount cnt s _ _ hsC hwc hc1 (by omega) (by
+    intro b hb; rw [hw0] at hb; simp at hb; subst hb; exact ws_not_digit _ hwsp)
+  have hsD := drop_step hsC
+  rw [padDec_length] at hsD
+  have h3 := wsEol_ws s _ t.hdrEol _ hsD (by rw [← isWs_eq]; exact heall) hene hr
+  have hsE := drop_step hsD
+  have hcur : c + t.lead.length + t.wStart + 1 + t.wCount + t.hdrEol.length = c + (encHdr t cnt).length := by
+    rw [hlenH]; omega
+  rw [hcur] at hsE h3
+  refine ⟨?_, hsE⟩
+  unfold xrefSubSectP
+  have hnn : ¬ ((t.start : Int) < 0) := by omega
+  have hnn2 : ¬ ((cnt : Int) < 0) := by omega
+  simp only [h0, andThen_ok, h1, hnn, if_false, exact_byte, hsp, if_true, h2, hnn2, h3, Int.toNat_natCast]
+
+/-- a subsection whose header announces more entries than well-formed ones follow is rejected -/
+theorem subsect_malformed_rejected (t : TSub) (cnt : Nat) (hok : hdrOk t cnt) (es : List TEnt) (bad : Bytes)
+    (hwf : ∀ e ∈ es, e.wf) (hcnt : es.length < cnt)
+    (s : Bytes) (c : Nat) (hs : s.drop c = encHdr t cnt ++ (es.flatMap encEntry ++ bad))
+    (hr : ∀ b, (es.flatMap encEntry ++ bad).head? = some b → Xref.isWsEol b = false ∧ b ≠ 37)
+    (hbad : entryAt s (c + (encHdr t cnt).length + 20 * es.length) = none) :
+    ∃ k c', xrefSubSectP s c = (.err k, c') := by
+  obtain ⟨h1, h2⟩ := subsect_header t cnt hok s c _ hs hr
+  obtain ⟨k, c', hk⟩ := ents_prefix_then_bad es cnt t.start s _ bad h2 hwf hcnt (by
+    have : usizeLim = 2 ^ 64 := rfl
+    obtain ⟨_, a, _, _, b, _⟩ := hok
+    omega) hbad
+  exact ⟨k, c', by rw [h1, hk]; rfl⟩
+
+/-- the fixed section loop: well-formed subsections, then a further subsection header starts
+    (blanks and a digit) whose subsection is rejected - the section is rejected (fix C13-01) -/
+theorem sect_error : ∀ (subs : List TSub) (fuel : Nat) (s : Bytes) (c : Nat) (tail : Bytes) (first : Bool),
+    subs.length + 1 ≤ fuel → (∀ t ∈ subs, subOk t) →
+    s.drop c = subs.flatMap encSub ++ tail →
+    (∃ lead d r, tail = lead ++ d :: r ∧ lead.all XrefSpec.isBlank = true ∧ Xref.isDigit d = true) →
+    (∃ k c', xrefSubSectP s (c + (subs.flatMap encSub).length) = (.err k, c')) →
+    ∃ k c', sectLoop fuel s c first = (.err k, c') := by
+  intro subs
+  induction subs with
+  | nil =>
+    intro fuel s c tail first hf _ hs hhdr herr
+    obtain ⟨f, rfl⟩ : ∃ f, fuel = f + 1 := ⟨fuel - 1, by simp at hf; omega⟩
+    obtain ⟨k, c', hk⟩ := herr
+    simp only [List.flatMap_nil, List.length_nil, Nat.add_zero, List.nil_append] at hk hs
+    have hmore : (if first = true then ((.ok true, c) : Step Bool)
+        else andThen (wsNoEol true s c) fun _ c1 =>
+          if startsHeader s[c1]? = true then (.ok true, c) else (.ok false, c1)) = (.ok true, c) := by
+      cases first with
+      | true => rfl
+      | false =>
+        obtain ⟨lead, d, r, ht, hl, hd⟩ := hhdr
+        rw [ht] at hs
+        have h0 := wsNoEol_blanks s c lead _ hs hl (by
+          intro b hb; simp at hb; subst hb; exact (digit_not_ws _ hd).1)
+        have hpk : s[c + lead.length]? = some d := by
+          have := head_of_drop (drop_step hs); simpa using this
+        simp [h0, hpk, startsHeader, hd]
+    exact ⟨k, c', by simp only [sectLoop, hmore, hk]⟩
+  | cons t ts ih =>
+    intro fuel s c tail first hf hok hs hhdr herr
+    obtain ⟨f, rfl⟩ : ∃ f, fuel = f + 1 := ⟨fuel - 1, by simp at hf; omega⟩
+    simp only [List.flatMap_cons, List.append_assoc] at hs
+    obtain ⟨hwf, hne⟩ := hok t (by simp)
+    have hmore : (if first = true then ((.ok true, c) : Step Bool)
+        else andThen (wsNoEol true s c) fun _ c1 =>
+          if startsHeader s[c1]? = true then (.ok true, c) else (.ok false, c1)) = (.ok true, c) := by
+      cases first with
+      | true => rfl
+      | false =>
+        obtain ⟨_, _, hws, _, _, _, hlead, _, _, _⟩ := hwf
+        obtain ⟨d0, t0, hd0, hdig0⟩ := padDec_head t.wStart t.start hws
+        have hs0 : s.drop c = t.lead ++ (padDec t.wStart t.start ++ ([32] ++ padDec t.wCount t.ents.length
+            ++ t.hdrEol ++ t.ents.flatMap encEntry ++ (ts.flatMap encSub ++ tail))) := by
+          rw [hs]; simp [encSub]
+        have h0 := wsNoEol_blanks s c t.lead _ hs0 hlead (by
+          intro b hb; rw [hd0] at hb; simp at hb; subst hb; exact (digit_not_ws _ hdig0).1)
+        have hpk : s[c + t.lead.length]? = some d0 := by
+          have := head_of_drop (drop_step hs0); rw [hd0] at this; simpa using this
+        simp [h0, hpk, startsHeader, hdig0]
+    obtain ⟨l1, hsub, _⟩ := subsect_roundtrip t hwf hne s c _ hs
+    have hs' := drop_step hs
+    obtain ⟨k, c', hk⟩ := ih f s (c + (encSub t).length) tail false (by simp at hf ⊢; omega)
+      (fun x hx => hok x (by simp [hx])) hs' hhdr (by
+        obtain ⟨k, c', h⟩ := herr
+        refine ⟨k, c', ?_⟩
+        rw [← h]; congr 1
+        simp only [List.flatMap_cons, List.length_append]; omega)
+    exact ⟨k, c', by simp only [sectLoop, hmore, hsub, hk]⟩
+
+/-- C13 `table_malformed_later_subsection_rejected` (defect #32, fixed by C13-01): a table whose
+    subsections `subs` are well formed and are followed by a further subsection - header `t`
+    announcing `cnt` entries, `es` well-formed entries, then bytes `bad` whose first 20 are not in
+    the entry form (or fewer than 20 remain) while `cnt` reaches them - is rejected by `XrefSectP`.
+    A malformed entry is malformed wherever it sits. -/
+theorem table_malformed_later_subsection_rejected (subs : List TSub) (hne : subs ≠ [])
+    (hok : ∀ t ∈ subs, subOk t) (t : TSub) (cnt : Nat) (hh : hdrOk t cnt) (es : List TEnt) (bad : Bytes)
+    (hwf : ∀ e ∈ es, e.wf) (hcnt : es.length < cnt)
+    (hr : ∀ b, (es.flatMap encEntry ++ bad).head? = some b → Xref.isWsEol b = false ∧ b ≠ 37)
+    (hbad : entryAt bad 0 = none) :
+    ∃ k c, xrefSectP (encTable subs ++ (encHdr t cnt ++ (es.flatMap encEntry ++ bad))) 0 = (.err k, c) := by
+  obtain ⟨t1, ts, rfl⟩ : ∃ t1 ts, subs = t1 :: ts := by
+    cases subs with
+    | nil => exact absurd rfl hne
+    | cons a b => exact ⟨a, b, rfl⟩
+  have htok := hok t1 (by simp)
+  obtain ⟨hP, hd5, hlenT⟩ := xrefSectP_prefix t1 ts (encHdr t cnt ++ (es.flatMap encEntry ++ bad)) htok
+  generalize hSdef : encTable (t1 :: ts) ++ (encHdr t cnt ++ (es.flatMap encEntry ++ bad)) = S at *
+  have hge := encSubs_length_ge (unlead t1 :: ts)
+  have hlenS : S.length - (4 + (1 + t1.lead.length)) =
+      ((unlead t1 :: ts).flatMap encSub ++ (encHdr t cnt ++ (es.flatMap encEntry ++ bad))).length := by
+    rw [← hd5]; simp
+  simp only [List.length_append, List.length_cons] at hlenS hge
+  have hdropH := drop_step hd5
+  obtain ⟨hws, hlead⟩ : 0 < t.wStart ∧ t.lead.all XrefSpec.isBlank = true := ⟨hh.2.2.1, hh.2.2.2.2.2.2.1⟩
+  obtain ⟨d0, t0, hd0, hdig0⟩ := padDec_head t.wStart t.start hws
+  -- the offending subsection is rejected
+  have hsub := subsect_malformed_rejected t cnt hh es bad hwf hcnt S _ hdropH hr (by
+    have h1 := drop_step hdropH
+    have h2 := drop_step h1
+    rw [encEntries_length] at h2
+    unfold entryAt at hbad ⊢
+    rw [h2]; simpa using hbad)
+  obtain ⟨k, c', hk⟩ := sect_error (unlead t1 :: ts) (S.length - (4 + (1 + t1.lead.length)) + 2) S
+    (4 + (1 + t1.lead.length)) _ true
+    (by simp only [List.length_cons]; omega)
+    (by
+      intro x hx
+      simp only [List.mem_cons] at hx
+      rcases hx with rfl | hx
+      · exact unlead_ok _ htok
+      · exact hok x (by simp [hx]))
+    hd5
+    ⟨t.lead, d0, t0 ++ ([32] ++ padDec t.wCount cnt ++ t.hdrEol) ++ (es.flatMap encEntry ++ bad),
+      by simp [encHdr, hd0], hlead, hdig0⟩
+    hsub
+  exact ⟨k, c', by rw [hP, hk]; rfl⟩
+
+/-! ## defect #32: witness on the code as shipped, and the fixed code on the same input -/
+
+
+/-- `xref LF 0 1 LF 0000000000 65535 f SP LF 5 1 LF 000000003 00000 n SP LF trailer`:
+    the entry of the second subsection has a 9-digit offset -/
+def witnessBytes : Bytes :=
+  [120,114,101,102,10, 48,32,49,10,
+   48,48,48,48,48,48,48,48,48,48,32,54,53,53,51,53,32,102,32,10,
+   53,32,49,10,
+   48,48,48,48,48,48,48,48,51,32,48,48,48,48,48,32,110,32,10,
+   116,114,97,105,108,101,114]
+
+/-- observable part of a section parse: the entries and the cursor when accepted -/
+def accepted (r : Res (Located (List (Located SubSect))) × Nat) : Option (List Ent × Nat) :=
+  match r with
+  | (.ok v, c) => some (sectEnts v.val, c)
+  | _ => none
+
+/-- Defect #32 as shipped: the loop before fix C13-01 accepts the table and silently drops the
+    second subsection (one entry, cursor left inside the malformed entry) … -/
+theorem old_loop_truncates_witness :
+    accepted (xrefSectPOld witnessBytes 0) = some ([⟨0, 65535, .free 0⟩], 43) := by
+  decide +kernel
+
+/-- … the fixed loop rejects it. -/
+theorem fixed_loop_rejects_witness : xrefSectP witnessBytes 0 = (.err .guard, 43) := by
+  decide +kernel
+
+instance (t : TSub) (cnt : Nat) : Decidable (hdrOk t cnt) := by unfold hdrOk; infer_instance
+instance (w0 w1 w2 : Nat) (e : SEnt) : Decidable (e.fits w0 w1 w2) := by unfold SEnt.fits; infer_instance
+
+/-! ## non-vacuity: the hypotheses of the theorems above are satisfiable by non-trivial instances -/
+
+def exE0 : TEnt := { info := 0, gen := 65535, inuse := false, eol := .spLf }
+def exE1 : TEnt := { info := 1234567890, gen := 7, inuse := true, eol := .crLf }
+def exE2 : TEnt := { info := 17, gen := 0, inuse := true, eol := .spCr }
+def exSubs : List TSub :=
+  [{ start := 0, wStart := 1, wCount := 1, lead := [], hdrEol := [10], ents := [exE0] },
+   { start := 5, wStart := 3, wCount := 2, lead := [32, 9], hdrEol := [32, 13, 10], ents := [exE1, exE2] }]
+def exRest : Bytes := [32, 116, 114, 97, 105, 108, 101, 114]   -- " trailer"
+
+/-- `table_roundtrip` applies to a two-subsection table with all three terminators, leading zeros
+    and blanks, followed by " trailer" … -/
+example : exSubs ≠ [] ∧ (∀ t ∈ exSubs, subOk t) ∧ endsSection exRest = true := by
+  refine ⟨by decide, ?_, by decide⟩
+  intro t ht
+  simp only [exSubs, List.mem_cons, List.not_mem_nil, or_false] at ht
+  rcases ht with rfl | rfl <;> exact ⟨by decide, by decide⟩
+
+/-- … and what it yields there is what the executable model computes (a test of the statement on
+    one instance, not a proof): objects 0, 5, 6. -/
+example : accepted (xrefSectP (encTable exSubs ++ exRest) 0) =
+    some ([⟨0, 65535, .free 0⟩, ⟨5, 7, .inUse 1234567890⟩, ⟨6, 0, .inUse 17⟩], 81) := by
+  decide +kernel
+
+/-- `table_malformed_later_subsection_rejected` applies: a second subsection announcing 2 entries,
+    one good entry, then an entry with generation 65536 -/
+example : hdrOk { start := 5, wStart := 1, wCount := 1, lead := [], hdrEol := [10], ents := [] } 2
+    ∧ entryAt (encEntry { exE1 with gen := 65536 }) 0 = none
+    ∧ (∀ b, ([exE2].flatMap encEntry ++ encEntry { exE1 with gen := 65536 }).head? = some b →
+        Xref.isWsEol b = false ∧ b ≠ 37) := by
+  refine ⟨by decide, by decide +kernel, ?_⟩
+  intro b hb
+  have : ([exE2].flatMap encEntry ++ encEntry { exE1 with gen := 65536 }).head? = some 48 := by decide +kernel
+  rw [this] at hb; cases hb; decide
+
+/-- `entry_malformed_rejected`: `0000000000 65535 f LF LF` is not in the 20-byte form -/
+example : entryAt ([48,48,48,48,48,48,48,48,48,48,32,54,53,53,51,53,32,102,10,10] : Bytes) 0 = none := by
+  decide
+
+/-- `xrefstream_rows_roundtrip` applies: widths [1 2 1], `/Index [5 2 9 1]` -/
+example : ∃ m : DictInfo, ∃ subs : List (Nat × List SEnt),
+    m.w0 ≤ 4 ∧ m.w1 ≤ 4 ∧ m.w2 ≤ 4 ∧ m.index = some (indexOf subs)
+    ∧ (∀ p ∈ subs, ∀ e ∈ p.2, e.fits m.w0 m.w1 m.w2) ∧ (∀ p ∈ subs, p.1 + p.2.length ≤ usizeLim)
+    ∧ totalRows subs = 3 :=
+  ⟨⟨10, none, some [(5, 2), (9, 1)], 1, 2, 1, []⟩,
+   [(5, [⟨1, 65535, 255⟩, ⟨0, 0, 7⟩]), (9, [⟨2, 12, 3⟩])], by decide, by decide, by decide, rfl,
+   by decide, by decide, rfl⟩
+
+/-- … and with no type field (`/W [0 2 0]`) every row is type 1 with generation 0 (test on one instance) -/
+example : (parseStream ⟨2, none, none, 0, 2, 0, []⟩ [0x12, 0x34, 0xff, 0xff] 0)
+    = (.ok [⟨⟨0, 0, .inUse 0x1234⟩, 0, 2⟩, ⟨⟨1, 0, .inUse 0xffff⟩, 2, 4⟩], 4) := by decide
+
+def exDictBadW : Dict :=
+  [(sType, .atom (.name sXRef)), (sSize, .atom (.int 3)), (sW, .arr [.int 1, .int 0, .int 1])]
+def exDictOddIndex : Dict :=
+  [(sType, .atom (.name sXRef)), (sSize, .atom (.int 3)), (sW, .arr [.int 1, .int 2, .int 1]),
+   (sIndex, .arr [.int 0, .int 1, .int 7])]
+def exDictGood : Dict :=
+  [(sType, .atom (.name sXRef)), (sSize, .atom (.int 9)), (sW, .arr [.int 1, .int 2, .int 0]),
+   (sIndex, .arr [.int 3, .int 2, .int 7, .int 1])]
+
+/-- `dictinfo_rejects` applies (zero second width; odd `/Index`), `dictinfo_accepts` applies -/
+example : dictMeaning exDictBadW = none ∧ dictMeaning exDictOddIndex = none
+    ∧ dictMeaning exDictGood = some ([(3, 2), (7, 1)], 1, 2, 0) ∧ streamFilters exDictGood = some [] := by
+  decide
+
+/-- `rows_hostile_count_rejected` applies: `/Size 2^63-1` over 4 bytes of data -/
+example : (4 : Nat) - 0 < 2 ^ 63 - 1 ∧
+    rowsLoop 1 2 1 (2 ^ 63 - 1) 0 [1, 0, 16, 0] 0 = (.err .eob, 4) := by
+  refine ⟨by decide, ?_⟩
+  have h : (2 : Nat) ^ 63 - 1 = (2 ^ 63 - 3) + 1 + 1 := by decide
+  rw [h]
+  simp [rowsLoop, rowP, parseUsizeW, andThen, usizeLim]
+
 end Parsley.C13
